@@ -119,6 +119,10 @@ def main(chk: core.Check) -> int:
                 chk.obligation_broken("correspondence", "Lean raw parser model vs native build (outcome class / arrays per buffer)", str(diffs[:3]))
         except core.DriverError as ex:
             chk.obligation_broken("correspondence", "Raw driver", str(ex))
+    # decoder calls overlapping in time (one parser per call): no crash, each call returns its own buffer's arrays (shared with C04)
+    if not chk.failing:
+        from checks import c04
+        c04.concurrent_decode(chk, rng, rounds=8)
     # how much of the parser the generated buffers reach (source-based coverage build of the same driver; without sanitizers a buffer that
     # crashes the parser ends that process, the measurement continues after it)
     if not chk.failing:
